@@ -783,9 +783,44 @@ def _encl(node):
 
 
 def r5_reflexive(ctx, sym):
-    ctx.rule('R5', "every is_subtype override accepts an operand of its own class: it tests type(self) == "
-                   "type(other) (then recurses component-wise) or delegates to super().is_subtype")
+    ctx.rule('R5', "every class that overrides is_subtype accepts an operand of its own class: two separately built, "
+                   "equal instances of the class (pedal's own constructors, executed) are subtypes of each other; where "
+                   "an instance cannot be built by the interpreter the override must test type(self) == type(other) "
+                   "or delegate to super().is_subtype (syntactic fallback)")
+    from .. import symexec, fdeval as _fdeval
+    from ..fdeval import Obj, Raised, Inconclusive
+    tmod = ctx.repo.module(TYPES)
     base = sym.find_class(TYPES, 'Type')
+    # how to build an instance of the classes whose constructor needs arguments
+    builders = {'ListType': 'ListType(False, IntType())', 'SetType': 'SetType(False, StrType(False))',
+                'FrozenSetType': 'FrozenSetType(False, IntType())', 'GeneratorType': 'GeneratorType(False, IntType())',
+                'ElementContainerType': 'ListType(False, IntType())',    # (abstract: through a concrete subclass)
+                'TupleType': 'TupleType([IntType(), StrType(False)])',
+                'DictType': 'DictType([(StrType(False), IntType())])', 'StrType': 'StrType(False)',
+                'LiteralInt': 'LiteralInt(5)', 'LiteralFloat': 'LiteralFloat(2.5)', 'LiteralStr': "LiteralStr('x')",
+                'LiteralBool': 'LiteralBool(True)'}
+
+    def class_of(o):
+        cd = o.attrs.get('__classdef__')
+        return sym.classes.get((cd._module.name, cd._qualname)) if cd is not None else None
+
+    def b_type(o):
+        return o.attrs['__classdef__'] if isinstance(o, Obj) and '__classdef__' in o.attrs else type(o)
+
+    def b_isinstance(o, t):
+        ts = t if isinstance(t, tuple) else (t,)
+        ts = tuple(type if (x is _fdeval._BUILTINS.get('type') or x is b_type) else x for x in ts)
+        if isinstance(o, Obj) and '__classdef__' in o.attrs:
+            mro = list(sym.mro(class_of(o)))
+            return any(getattr(x, '_fd_class', None) is not None and
+                       any(getattr(k, 'node', None) is x._fd_class for k in mro) for x in ts)
+        return any(isinstance(x, type) and isinstance(o, x) for x in ts)
+
+    def build(expr):
+        fn_ = ast.parse("def _expression():\n    return %s" % expr).body[0]
+        fn_._module, fn_._qualname = tmod, '_expression'
+        fd = symexec.new_fd(sym, tmod, calls={'isinstance': b_isinstance, 'type': b_type}, max_steps=400000)
+        return fd.call_function(fn_, [])
     n = 0
     for ci in sym.subclasses(base):
         if 'is_subtype' not in ci.methods:
@@ -793,14 +828,25 @@ def r5_reflexive(ctx, sym):
         fn = ci.methods['is_subtype']
         ctx.analysed_function(ci.module, fn)
         n += 1
-        src = norm(fn)
-        ok = 'type(self) == type(other)' in src or 'type(other) == type(self)' in src or \
-            'type(self) is type(other)' in src or 'super().is_subtype(' in src
-        if ci.name in ('ClassType', 'InstanceType'):
-            # nominal types: compared by name / parent class, reflexive by name equality
-            ok = ok or ('.name' in src) or ('parent' in src)
-        ctx.check(ok, 'R5', ci.name + '.is_subtype', ci.module, fn,
-                  "override has no same-class acceptance path",
+        decided = None
+        if ci.module is tmod:
+            expr = builders.get(ci.name, ci.name + '()')
+            try:
+                one, two = build(expr), build(expr)
+                if isinstance(one, Obj) and isinstance(two, Obj):
+                    fd = symexec.new_fd(sym, tmod, calls={'isinstance': b_isinstance, 'type': b_type}, max_steps=400000)
+                    decided = fd.call_function(tmod.func('is_subtype'), [one, two]) is True
+            except (Raised, Inconclusive):
+                decided = None
+        if decided is None:
+            src = norm(fn)
+            decided = 'type(self) == type(other)' in src or 'type(other) == type(self)' in src or \
+                'type(self) is type(other)' in src or 'super().is_subtype(' in src
+            if ci.name in ('ClassType', 'InstanceType'):
+                # nominal types: compared by name / parent class, reflexive by name equality
+                decided = decided or ('.name' in src) or ('parent' in src)
+        ctx.check(decided, 'R5', ci.name + '.is_subtype', ci.module, fn,
+                  "two equal instances of %s are not subtypes of each other (no same-class acceptance path)" % ci.name,
                   "is_subtype(t, t) is false for a %s" % ci.name, construct=ci.name + '.is_subtype')
     ctx.floor('R5', 'is_subtype overrides', n, 8)
 
@@ -829,7 +875,8 @@ def r6_lattice_executed(ctx, sym):
         ts = tuple(type if (x is _fdeval._BUILTINS.get('type') or x is b_type) else x for x in ts)
         if isinstance(o, Obj) and '__classdef__' in o.attrs:
             mro = list(sym.mro(class_of(o)))
-            return any(getattr(x, '_fd_class', None) is not None and any(k is x._fd_class for k in mro) for x in ts)
+            return any(getattr(x, '_fd_class', None) is not None and
+                       any(k is x._fd_class or getattr(k, 'node', None) is x._fd_class for k in mro) for x in ts)
         return any(isinstance(x, type) and isinstance(o, x) for x in ts)
 
     def evaluate(expr, mod):
